@@ -407,6 +407,45 @@ def fam_scattered(ctx, rng):
         ctx.nontrivial(["scattered", n_curves, kw["n"], kw["distribution_fn"], r["ret"], r["rejected"]])
 
 
+def fam_two_populations(ctx, rng):
+    """A minority of windows with a much higher amplitude level and a shifted resonance: the arithmetic-mean curve then
+    peaks at the minority's frequency and the geometric-mean curve at the majority's, so the distribution chosen for the
+    mean curve (independently of the one for fn) decides |mean fn - mean-curve peak| and with it the stop test."""
+    import hvsrpy
+    n_curves = int(rng.integers(10, 50))
+    n_freq = 128
+    f = np.geomspace(0.2, 40, n_freq)
+    lf = np.log(f)
+    c1 = rng.uniform(lf[20], lf[-40])
+    c2 = c1 + rng.choice([-1, 1]) * rng.uniform(0.15, 0.6)
+    frac = rng.uniform(0.08, 0.3)
+    amp = np.empty((n_curves, n_freq))
+    for i in range(n_curves):
+        minority = rng.random() < frac
+        c = (c2 if minority else c1) + rng.normal(0, rng.choice([0.03, 0.1, 0.25]))
+        level = rng.uniform(5, 40) if minority else 1.0
+        amp[i] = level * (1 + rng.uniform(2, 5) * np.exp(-0.5 * ((lf - c) / rng.uniform(0.08, 0.2)) ** 2)) + 0.02 * rng.random(n_freq)
+    dfn = str(rng.choice(["lognormal", "normal"]))
+    dmc = "normal" if dfn == "lognormal" else "lognormal"
+    if rng.random() < 0.2:
+        dmc = dfn
+    kw = dict(n=float(rng.choice([1.0, 1.5, 2.0, 2.5, 3.0])), max_iterations=50, distribution_fn=dfn, distribution_mc=dmc,
+              search_range_in_hz=(None, None))
+    hv = hvsrpy.HvsrTraditional(f, amp)
+    # how far apart are the two mean-curve peaks before any rejection? (evidence: the cases where the choice matters)
+    try:
+        pa, pg = hv.mean_curve_peak("normal")[0], hv.mean_curve_peak("lognormal")[0]
+        if pa != pg:
+            ctx.count("cases_where_the_two_mean_curves_peak_at_different_frequencies")
+    except ValueError:
+        pass
+    r = judge_call(ctx, hv, kw, "two-populations")
+    ctx.describe(kind="traditional-two-populations", n_curves=n_curves, centres=[float(np.exp(c1)), float(np.exp(c2))],
+                 **{k: (list(v) if isinstance(v, tuple) else v) for k, v in kw.items()}, returned=None if r is None else r["ret"])
+    if r is not None and dfn != dmc:
+        ctx.nontrivial(["two-populations", n_curves, kw["n"], dfn, dmc, r["ret"], r["rejected"]])
+
+
 def fam_symmetric_grid(ctx, rng):
     """Peaks on an integer grid placed symmetrically about the mean-curve peak, so that |mean fn - mean-curve peak| is
     EXACTLY zero at the start of some iteration (sums of small integers are exact): the iteration must still reject the
@@ -433,5 +472,5 @@ def fam_symmetric_grid(ctx, rng):
         ctx.nontrivial(["symmetric", sorted(peaks), kw["n"], kw["distribution_mc"], r["ret"], r["rejected"]])
 
 
-FAMILIES = [("symmetric-integer-grid", fam_symmetric_grid), ("pre-rejected-windows", fam_pre_rejected), ("scattered-multimodal", fam_scattered), ("traditional", fam_traditional), ("azimuthal", fam_azimuthal), ("iteration-limit", fam_limit),
+FAMILIES = [("two-populations-mixed-distributions", fam_two_populations), ("symmetric-integer-grid", fam_symmetric_grid), ("pre-rejected-windows", fam_pre_rejected), ("scattered-multimodal", fam_scattered), ("traditional", fam_traditional), ("azimuthal", fam_azimuthal), ("iteration-limit", fam_limit),
             ("traditional-2", fam_traditional)]
